@@ -24,6 +24,7 @@ fn get_i128(m: &HashMap<String, String>, k: &str) -> Option<i128> {
 }
 
 mod c01;
+mod c02;
 mod c11;
 mod c13;
 mod c14;
